@@ -50,6 +50,9 @@ pub struct ElfSpec {
     /// offset + k pages (as produced by patchelf / non-trivial linker scripts)
     #[serde(default)]
     pub seg2_delta_pages: u8,
+    /// an empty PT_NOTE program header (p_filesz == p_memsz == 0) ahead of the one holding the build id
+    #[serde(default)]
+    pub empty_note_first: bool,
 }
 
 #[derive(Debug, Clone)]
@@ -138,6 +141,9 @@ pub fn build(spec: &ElfSpec) -> Built {
         ph_kinds.push("load2");
     }
     if has_note && spec.note_phdr {
+        if spec.empty_note_first {
+            ph_kinds.push("emptynote");
+        }
         ph_kinds.push("note");
     }
     if spec.soname.is_some() && spec.dyn_phdr {
@@ -247,6 +253,7 @@ pub fn build(spec: &ElfSpec) -> Built {
                 "load" => (PT_LOAD, 0usize, if delta > 0 { seg2_off } else { total }, 4096usize),
                 "load2" => (PT_LOAD, seg2_off, total - seg2_off, 4096usize),
                 "note" => (PT_NOTE, note_off, notes.len(), note_align),
+                "emptynote" => (PT_NOTE, note_off, 0, note_align),
                 "dynamic" => (PT_DYNAMIC, dyn_off, n_dyn * dyn_ent, 8),
                 _ => (0x6474e551, 0, 0, 16), // GNU_STACK
             };
